@@ -85,6 +85,9 @@ class Explorer:
         self.modular_memo = {}
         self.cell_reads_seed = []
         self.cell_reads = []
+        self.heap_seed = None
+        self.heap = None
+        self.heap_writes = []
         self.branch_rlimit = 4000000
         self.base_pc = []
         self.prefix = ''
@@ -112,6 +115,8 @@ class Explorer:
         self.first_choice = dict(self.first_choice_seed)
         self.modular_memo = dict(self.modular_memo_seed)
         self.cell_reads = list(self.cell_reads_seed)
+        self.heap = dict(self.heap_seed) if self.heap_seed is not None else None
+        self.heap_writes = []
         self.notes = []
 
     def fresh_name(self, base):
